@@ -2,9 +2,9 @@
 # final pass over all kept seeds: own property's check plus the cross checks that are known to fire
 declare -A X
 X[C01-1]="C01"; X[C01-2]="C01 C13"; X[C02-1]="C02"; X[C02-2]="C02"; X[C03-1]="C03"; X[C03-2]="C03"
-X[C04-1]="C04"; X[C04-2]="C04"; X[C05-1]="C05"; X[C05-2]="C05"; X[C06-1]="C06"; X[C06-2]="C06"
+X[C04-1]="C04"; X[C04-2]="C04"; X[C05-1]="C05"; X[C05-2]="C05 C01 C04"; X[C06-1]="C06"; X[C06-2]="C06"
 X[C07-1]="C07"; X[C07-2]="C07"; X[C08-1]="C08"; X[C08-2]="C08"; X[C09-1]="C09"; X[C09-2]="C09"
-X[C10-1]="C10"; X[C10-2]="C10 C13"; X[C11-1]="C11"; X[C11-2]="C11"; X[C12-1]="C12"; X[C12-2]="C12"
+X[C10-3]="C10"; X[C10-2]="C10 C13"; X[C11-1]="C11"; X[C11-2]="C11"; X[C12-1]="C12"; X[C12-2]="C12"
 X[C13-1]="C13"; X[C13-2]="C13 C14"; X[C14-2]="C14 C04"; X[C14-3]="C14"; X[C15-1]="C15 C14 C01"; X[C15-2]="C15 C01 C02"
 X[C16-1]="C16"; X[C16-2]="C16"; X[C17-1]="C17"; X[C17-2]="C17"; X[C18-1]="C18"; X[C18-2]="C18"
 X[C19-1]="C19"; X[C19-2]="C19"; X[C20-1]="C20"; X[C20-2]="C20"
